@@ -166,6 +166,9 @@ def check_uci(ctx, f, L):
                             eqs.append((wing, bool(v)))
                         else:
                             ctx.fail("uci-write:rook-squares", "the writer compares a right's rook square with something other than the destination: %s" % sym.show(other)[:80], where)
+            elif e[0] == "bin" and e[1] in ("Eq", "Ne") and any(x_[0] == "field" and x_[1] == RIGHTS and x_[2] in ("short", "long") for x_ in (e[2], e[3])) and \
+                    any(x_[0] == "agg" and x_[2] == "Some" for x_ in (e[2], e[3])):
+                pass        # `rights.W == Some(file)`: read together with the rank comparison below
             elif sym.contains(e, lambda y: y[0] == "field" and y[2] in ("short", "long") and y[1] == RIGHTS) and not (e[0] == "discr" and e[1][0] == "field" and e[1][1] == RIGHTS):
                 ctx.fail("uci-write:rook-squares", "the writer's castle squares are not (right's file, mover's back rank): %s" % sym.show(e)[:120], where)
         # `Move { to: X, ..mv }` is mv with its destination replaced
@@ -177,6 +180,28 @@ def check_uci(ctx, f, L):
         elif r[0] == "with" and r[1] == MV and r[2] == ("f", "to"):
             target = "G" if r[3] == sqf("G") else ("C" if r[3] == sqf("C") else "other")
         d = dict(eqs)
+        # the same comparison made through the components: the right's file equals the destination's file and the
+        # destination stands on the mover's back rank
+        from .common import option_is_some_of3
+        rank_at = None
+        for e, v in conds:
+            if e[0] == "bin" and e[1] in ("Eq", "Ne") and {e[2], e[3]} == {BACK, ("rank", mto)} and isinstance(v, int):
+                rank_at = (e[1] == "Eq") == bool(v)
+        for wing in ("short", "long"):
+            if wing in d:
+                continue
+            for X in (mto, sqf("G"), sqf("C")):
+                sf = option_is_some_of3(conds, ("field", RIGHTS, wing), ("file", mto) if X == mto else X[1])
+                ra = rank_at if X == mto else True
+                if sf is False or ra is False:
+                    val_ = False
+                elif sf is True and ra is True:
+                    val_ = True
+                else:
+                    continue
+                d[wing] = val_
+                eqs.append((wing, val_))
+                break
         if target == "G":
             ctx.check(kf == [1] and d.get("short") is True and d.get("long") is not True, "uci-write:short->g",
                       "the writer emits the g-square without (king move, to == short right's rook square): %s" % eqs, where, sample={"uci writer": "short rook square => g"})
@@ -308,6 +333,9 @@ def check_san_reader(ctx, f, L):
     ctx.rule("san-reader.totality")
     a = panics.Audit(f).run([name], stop=lambda k: "generate_moves" in k, skip=lambda k: not k.startswith(U))
     tab = {("Board::king", "expect", "bitboard::BitBoard::next_square"): "one king per colour (C06)"}
+    # move generation itself is audited under C01/C04; where the engine looks into it from here, their named invariants apply
+    from .c04 import role_table
+    tab.update({k_: v_ for k_, v_ in role_table(f).items() if k_[1] == "unwrap"})
     panics.report(ctx, a, tab, "panic")
     n = parser_callees(ctx, f, [name], "san", only_files=("util/mod.rs",))
     ctx.floor("core callees of the SAN reader", n, 15)
